@@ -310,7 +310,7 @@ fixupL(const int n, const int *perm_r, GlobalLU_t *Glu)
     int   *xsup;
     int_t *lsub, *xlsub;
 
-    if ( n <= 1 ) return;
+    if ( n < 1 ) return;
 
     xsup   = Glu->xsup;
     lsub   = Glu->lsub;
